@@ -194,6 +194,8 @@ func (w *World) child(p *wnode, branch bool) *wnode {
 		c.lm = p.lm.clone()
 	}
 	for k, e := range p.ann {
+		e.Rels = append([]annRel{}, e.Rels...) // versions must not share the slices the oracle edits in place
+		e.Tags = append([]string{}, e.Tags...)
 		c.ann[k] = e
 	}
 	for k, e := range p.nj {
@@ -265,9 +267,35 @@ func (w *World) lmIngest(n *wnode, mutate bool) {
 	blk := make([]uint64, lmB*lmB*lmB)
 	nsv := 1 + w.r.Intn(4)
 	svs := make([]uint64, nsv)
+	// the mutate flag must say whether the block already holds labels (API contract of POST raw)
+	exists := false
+	for z := 0; z < lmB && !exists; z++ {
+		for y := 0; y < lmB && !exists; y++ {
+			for _, sv := range n.lm.vox[(bz*lmB+z)*lmN+by*lmB+y][bx*lmB : bx*lmB+lmB] {
+				if sv != 0 {
+					exists = true
+					break
+				}
+			}
+		}
+	}
+	mutate = exists
+	var live []uint64 // supervoxels present at this version: only those may be extended into another block
+	{
+		seen := map[uint64]bool{}
+		for _, row := range n.lm.vox {
+			for _, sv := range row {
+				if sv != 0 && !seen[sv] {
+					seen[sv] = true
+					live = append(live, sv)
+				}
+			}
+		}
+		sort.Slice(live, func(i, j int) bool { return live[i] < live[j] })
+	}
 	for i := range svs {
-		if w.r.Chance(0.3) && w.nextSV > 12 { // reuse an existing supervoxel id: a supervoxel spanning several blocks
-			svs[i] = 10 + uint64(w.r.Intn(int(w.nextSV-10)))
+		if w.r.Chance(0.3) && len(live) > 0 { // reuse a live supervoxel id: a supervoxel spanning several blocks
+			svs[i] = live[w.r.Intn(len(live))]
 		} else {
 			svs[i] = w.nextSV
 			w.nextSV++
@@ -635,6 +663,7 @@ func (w *World) annMove(n *wnode) bool {
 	e.Pos = to
 	n.ann[to] = e
 	for q, x := range n.ann {
+		x.Rels = append([]annRel{}, x.Rels...)
 		for i := range x.Rels {
 			if x.Rels[i].To == p {
 				x.Rels[i].To = to
